@@ -353,6 +353,8 @@ pub fn c16_pins() -> Vec<C16Pin> {
         C16Pin { name: "if_continue_in_switch_in_dowhile", src: || "unsigned char a, c;\nvoid main() { do { switch (a) { case 1: if (c) continue; c++; break; } a++; } while (a < 3); }\n".into(), argv_extra: &[] },
         C16Pin { name: "if_continue_in_switch_in_while_and_for", src: || "unsigned char a, c;\nvoid main() { while (a < 3) { a++; switch (a) { case 1: if (c) continue; } } for (a = 0; a != 2; a++) { switch (c) { default: if (a) continue; c++; } } }\n".into(), argv_extra: &[] },
         C16Pin { name: "undef_of_unknown_name", src: || "#define WIDTH 4\n#undef HEIGHT\n#undef WIDTH\n#undef WIDTH\nunsigned char a;\nvoid main() { a = 1; }\n".into(), argv_extra: &[] },
+        C16Pin { name: "literal_in_call_in_local_initialiser", src: || "char *p;\nchar first(char *s) { p = s; return s[0]; }\nvoid main() { unsigned char c = first(\"AB\"); char *q = \"CD\"; unsigned char d = first(q) + first(\"EF\"); p = q; }\n".into(), argv_extra: &[] },
+        C16Pin { name: "more_than_100_macros", src: || { let mut s = String::new(); for i in 0..105 { s.push_str(&format!("#define K{} {}\n", i, i)); } for i in 0..3 { s.push_str(&format!("#define F{}(a) ((a)+{})\n", i, i)); } s.push_str("#undef K104\n#undef K3\nunsigned char a;\nvoid main() { a = K103 + K100 + K99 + K5 + F2(K101); }\n"); s }, argv_extra: &[] },
         C16Pin { name: "huge_array_size", src: || "short sa0[2147483647];\nunsigned char c[-3];\nvoid main() { sa0[1] = 2; }\n".into(), argv_extra: &[] },
         C16Pin { name: "huge_literal", src: || "unsigned char a;\nvoid main() { a = 99999999999; }\n".into(), argv_extra: &[] },
         C16Pin { name: "double_minus_literal", src: || "void main() { csleep(--5); }\n".into(), argv_extra: &[] },
